@@ -213,6 +213,11 @@ func validate(bundle *crl.Bundle, issuer *x509.Certificate) error {
 	if err := validateCRL(deltaCRL, issuer); err != nil {
 		return fmt.Errorf("failed to validate delta CRL: %w", err)
 	}
+	if deltaCRL.Number == nil || baseCRL.Number == nil {
+		// the CRL number extension is optional when parsing, but a delta CRL
+		// cannot be related to its base without it
+		return errors.New("CRL number is missing in the base or delta CRL")
+	}
 	if deltaCRL.Number.Cmp(baseCRL.Number) <= 0 {
 		return fmt.Errorf("delta CRL number %d is not greater than the base CRL number %d", deltaCRL.Number, baseCRL.Number)
 	}
